@@ -68,17 +68,17 @@ macro_rules! partial_bit_harness {
 
 // @unit id=partial.bit.byte props=C07 tier=quick kind=proof fn=write_partial_access,read_partial_access
 partial_bit_harness!(partial_bit_byte, Byte, u8);
-// @unit id=partial.bit.word props=C07 tier=thorough kind=proof fn=write_partial_access,read_partial_access
+// @unit id=partial.bit.word props=C07 tier=quick kind=proof fn=write_partial_access,read_partial_access
 partial_bit_harness!(partial_bit_word, Word, u16);
 // @unit id=partial.bit.dword props=C07 tier=quick kind=proof fn=write_partial_access,read_partial_access
 partial_bit_harness!(partial_bit_dword, DWord, u32);
-// @unit id=partial.bit.lword props=C07 tier=thorough kind=proof fn=write_partial_access,read_partial_access
+// @unit id=partial.bit.lword props=C07 tier=quick kind=proof fn=write_partial_access,read_partial_access
 partial_bit_harness!(partial_bit_lword, LWord, u64);
 // @unit id=partial.byte.word props=C07 tier=quick kind=proof fn=write_partial_access,read_partial_access
 partial_harness!(partial_byte_word, Word, u16, Byte, Byte, u8, 8, 2);
 // @unit id=partial.byte.dword props=C07 tier=quick kind=proof fn=write_partial_access,read_partial_access
 partial_harness!(partial_byte_dword, DWord, u32, Byte, Byte, u8, 8, 4);
-// @unit id=partial.byte.lword props=C07 tier=thorough kind=proof fn=write_partial_access,read_partial_access
+// @unit id=partial.byte.lword props=C07 tier=quick kind=proof fn=write_partial_access,read_partial_access
 partial_harness!(partial_byte_lword, LWord, u64, Byte, Byte, u8, 8, 8);
 // @unit id=partial.word.dword props=C07 tier=quick kind=proof fn=write_partial_access,read_partial_access
 partial_harness!(partial_word_dword, DWord, u32, Word, Word, u16, 16, 2);
